@@ -52,6 +52,7 @@ Judge(v, a) ==
        [] Prop = "C07" -> (v = "accept" => N07(w, o))
        [] Prop = "C11" -> (Honest(w, o) => v = "accept")
        [] Prop = "C12" -> Gating(o, fetches) /\ MonotoneObs(a) /\ (Lvl(o) = 3 => v = "reject")
+       [] Prop = "HIST" -> /\ (v = "accept" => Necessary(w, o)) /\ (Honest(w, o) => v = "accept") /\ Gating(o, fetches)
        [] Prop = "ALL" -> /\ (v = "accept" => Necessary(w, o)) /\ (Honest(w, o) => v = "accept")
                           /\ Gating(o, fetches) /\ MonotoneObs(a)
 
